@@ -122,13 +122,15 @@ def shift (p : Aff Q) (d : Q) : Aff Q :=
 def margin : Q := mkRat 1 1000000
 
 /-- a point of the polytope shrunk by `margin` in every row: witness that the set is non-empty by a margin -/
-def pointInShrunk (n : Nat) (path : List (Aff Q)) : Option (List Q) :=
+def pointInShrunkR (radius : Q) (n : Nat) (path : List (Aff Q)) : Option (List Q) :=
   let p0 := shift (Poly.intersectionN n path) (-margin)
-  -- "non-empty by a margin" is meant at the scale of the data: inside the box [−10⁶, 10⁶]ⁿ
-  let p := Poly.intersection p0 (Poly.hypercube n 1000000)
+  -- "non-empty by a margin" is meant at the scale of the data: inside the box [−radius, radius]ⁿ
+  let p := Poly.intersection p0 (Poly.hypercube n radius)
   match findPoint p.mat p.bias n with
   | some x => if Poly.memb p x then some x else none
   | none => none
+
+def pointInShrunk (n : Nat) (path : List (Aff Q)) : Option (List Q) := pointInShrunkR 1000000 n path
 
 /-- is the polytope grown by `margin` certainly empty? (verified Farkas certificate) -/
 def emptyEvenGrown (n : Nat) (path : List (Aff Q)) : Bool :=
